@@ -125,7 +125,8 @@ class Engine:
 
     # ------------------------------------------------------------------ case generation
     def toplevel_opts(self, rng, s, root):
-        idents = [None, None, b'ABCD', b'\x01\x00\x00\x00', b'\xff\xfe\xfd\xfc']
+        # identifiers are 4 bytes, not strings: type hashes with a zero low (= first) byte exist (1 in 256), e.g. 0xb9441000
+        idents = [None, None, b'ABCD', b'\x01\x00\x00\x00', b'\xff\xfe\xfd\xfc', b'\x00\x10\x44\xb9', b'\x00\x00\x00\x01']
         if s.ident: idents += [s.ident.encode()] * 2
         if root in self.thash.get(s.name, {}): idents.append(self.thash[s.name][root].to_bytes(4, 'little'))
         style = rng.choice(['se', 'se', 'se', 'c'])
@@ -146,6 +147,8 @@ class Engine:
         g = bu.ScriptGen(s, rng, styles=styles)
         g.gen_api = gen_api and s.name in self.HG
         g.moving_alloc = rng.random() < 0.3          # an allocator that moves every block it grows
+        # flatcc's default (paged) emitter instead of the recording one: finished bytes only, no emit stream
+        g.default_emitter = (not g.moving_alloc) and not g.gen_api and rng.random() < 0.15
         g.corder = self.corder.get(s.name)
         g.thash = self.thash.get(s.name)
         g.embed_min_depth = embed_min_depth
@@ -159,15 +162,20 @@ class Engine:
         g.toplevel(node, o)
         return Case(s, root, node, g, o, klass or ('table-root' if root in s.tables else 'struct-root'))
 
-    def make_wide_case(self, rng, count=130):
+    def make_wide_case(self, rng, count=130, many_vtables=False):
         """many sibling instances of one wide table type that differ only in which high-id fields are present (fixed add order):
-        vtables of equal length / table size / leading entries - the vtable cache must still tell them apart"""
+        vtables of equal length / table size / leading entries - the vtable cache must still tell them apart.
+        many_vtables: 100..400 distinct vtables of MANY lengths (12..64 bytes), clustered at the back of a top-level buffer that is
+        finished through flatcc's default emitter: the back of the buffer outgrows the emitter's first half page (1472 bytes) and every
+        further page (2944), vtables straddle the page boundaries at varying offsets"""
         s = self.by_name['bwide']
-        node = bu.wide_value(s, rng, count)
+        node = bu.wide_value(s, rng, count, vary_end=many_vtables)
         g = bu.ScriptGen(s, rng, styles=False)
-        o = {'clustering': rng.random() < 0.5, 'block_align': 0, 'ident': None, 'with_size': False, 'style': 'se', 'early': False, 'align': 0}
+        o = {'clustering': True if many_vtables else rng.random() < 0.5, 'block_align': rng.choice([0, 0, 8, 64, 256]) if many_vtables else 0, 'ident': None,
+             'with_size': many_vtables and rng.random() < 0.3, 'style': 'se', 'early': False, 'align': 0}
+        g.default_emitter = many_vtables
         g.toplevel(node, o)
-        return Case(s, s.root, node, g, o, 'wide-presence-patterns')
+        return Case(s, s.root, node, g, o, 'many-distinct-vtables' if many_vtables else 'wide-presence-patterns')
 
     def make_union_realloc_case(self, rng, inline):
         """generated <T>_<union>_add with the open table's inline data ending `inline` bytes into the data stack, moving allocator"""
@@ -199,6 +207,8 @@ class Engine:
                 for i, r in zip(groups[k], f.result()): hres[i] = r
         mres = ctx.run_model('builder', [c.m for c in cases])
         for c, a, b in zip(cases, hres, mres):
+            if getattr(c.gen, 'default_emitter', False) and b.startswith('OK '):
+                b = re.sub(r' emits=\S+', ' emits=-', b)      # the default emitter's pages are not observable call by call: finished bytes only
             if c.gen.opaque:
                 a, b = mask_refs(a, c.gen.opaque), mask_refs(b, c.gen.opaque)
             c.hrep, c.mrep = a, b
@@ -294,6 +304,177 @@ class Engine:
                 ctx.violation(key_prefix + 'embed-no-parent-decodes-differently', 'bytes emitted by embed_buffer without a parent buffer do not decode to the embedded value', dict(base, dec_line=dl[:3000]))
         return len(recs)
 
+    # ------------------------------------------------------------------ alignments above the padding block (out of the documented range)
+    PAD_KEY = 'pad-overread:align-above-512'
+
+    def align_above_512(self, rng, count, nested_only=False):
+        """Alignment arguments of 1024 and more (block_align of set_block_align / start_buffer / create_buffer / embed_buffer 1024..32768,
+        align of create_vector / create_struct / embed_buffer 1024). flatcc_builder.h documents 'All alignment in all API calls must be
+        between 1 and 256 ... This is not checked'; the padding is handed to the emitter as ONE iov entry taken from the 512 byte
+        flatcc_builder_padding_base, so a padding above 512 bytes makes the emitter read past that array. Every script runs in its own
+        harness process (a sanitizer report ends the process); all over-reads are reported under ONE key; without an over-read the result
+        must equal the model's (the model pads with as many zero bytes as needed)."""
+        ctx = self.ctx
+        recs = []
+        data = bytes.fromhex('0c00000000000600080004000600000007000000')      # a minimal table buffer: one int field = 7
+        for i in range(count):
+            big = rng.choice([1024, 2048, 4096, 32768])
+            cl = rng.choice([0, 1]); fl = rng.choice([0, 2]); n = rng.choice([1, 3, 7, 30, 200, 600])
+            body = 'S:c:%s Ts:2 Ti:a:0:4:4:%s To:1:%%d Te' % (bytes(rng.randrange(1, 256) for _ in range(n)).hex(), rng.randrange(1 << 32).to_bytes(4, 'little').hex())
+            sites = ['embed_buffer:align', 'embed_buffer:block_align', 'start_buffer(nested):block_align', 'create_vector(nested):align'] if nested_only else \
+                    ['set_block_align', 'start_buffer:block_align', 'create_buffer:block_align', 'create_vector:align', 'create_struct:align',
+                     'embed_buffer:align', 'embed_buffer:block_align', 'start_buffer(nested):block_align']
+            site = sites[i % len(sites)]
+            if site == 'set_block_align': ops, al = 'X:%d:%d:- B:-:0:%d %s E:1' % (cl, big, fl, body % 0), big
+            elif site == 'start_buffer:block_align': ops, al = 'X:%d:0:- B:-:%d:%d %s E:1' % (cl, big, fl, body % 0), big
+            elif site == 'create_buffer:block_align': ops, al = 'X:%d:0:- %s C:-:%d:1:0:%d' % (cl, body % 0, big, fl), big
+            elif site == 'create_vector:align':
+                ops, al = 'X:%d:0:- B:-:0:%d V:c:1:1024:4294967295:%d:%s Ts:2 To:1:0 Te E:1' % (cl, fl, n, bytes(rng.randrange(256) for _ in range(n)).hex()), 1024
+            elif site == 'create_struct:align': ops, al = 'X:%d:0:- B:-:0:%d R:c:1024:%s E:0' % (cl, fl, bytes(rng.randrange(256) for _ in range(8)).hex()), 1024
+            elif site == 'embed_buffer:align': ops, al = 'X:%d:0:- B:-:0:%d %s M:0:1024:%d:%s Ts:3 To:0:1 To:2:2 Te E:3' % (cl, fl, body % 0, rng.choice([0, 2]), data.hex()), 1024
+            elif site == 'embed_buffer:block_align': ops, al = 'X:%d:0:- B:-:0:%d %s M:%d:4:0:%s Ts:3 To:0:1 To:2:2 Te E:3' % (cl, fl, body % 0, big, data.hex()), big
+            elif site == 'start_buffer(nested):block_align':
+                ops, al = 'X:%d:0:- B:-:0:%d %s B:-:%d:0 %s E:3 Ts:3 To:0:1 To:2:4 Te E:5' % (cl, fl, body % 0, big, body.replace('%d', '2')), big
+            else:
+                ops, al = 'X:%d:0:- B:-:0:%d B:-:0:0 V:c:1:1024:4294967295:%d:%s Ts:2 To:1:0 Te E:1 Ts:1 To:0:2 Te E:3' % (cl, fl, n, bytes(rng.randrange(256) for _ in range(n)).hex()), 1024
+            h, m = 'build ' + ops, 'run ' + self._model_ops(ops)
+            recs.append((site, al, h, m))
+        mres = ctx.run_model('builder', [r[3] for r in recs])
+        hits = []
+        for (site, al, h, m), mr in zip(recs, mres):
+            ctx.count(h, klass='build:align-above-512')
+            rc, res, err = self.H.run([h])             # one process per script
+            base = {'harness_line': h, 'model_line': m, 'site': site, 'alignment': al}
+            if not res:
+                if 'flatcc_builder_padding_base' in err and 'global-buffer-overflow' in err:
+                    fr = re.findall(r'in (flatcc_builder_\w+|emit_front|emit_back)', err)
+                    hits.append((site, al, [f for f in fr if f.startswith('flatcc_builder_')][:1] or fr[:1], base, err))
+                else:
+                    ctx.violation('crash:' + self.crash_key(err), 'the builder crashes (sanitizer) with an alignment argument of %d at %s, and not in the padding block: %s' % (al, site, err[:400]),
+                                  dict(base, stderr=err[:1500]))
+                continue
+            hr = res[0]
+            if parse_reply(hr) is None or hr != mr:
+                ctx.violation('corr:build:align-above-512', 'alignment %d at %s, no over-read of the padding block, but model and implementation disagree' % (al, site),
+                              dict(base, impl=hr[:3000], model=mr[:3000]))
+        if hits:
+            by = {}
+            for site, al, fr, base, err in hits: by.setdefault('%s=%d (%s)' % (site, al, fr[0] if fr else '?'), base)
+            site, al, fr, base, err = hits[0]
+            ctx.violation(self.PAD_KEY,
+                          'alignment arguments above 512 make the emitter read past the 512 byte flatcc_builder_padding_base (the builder hands a padding of up to align - 1 bytes '
+                          'to the emitter as one iov entry; AddressSanitizer: global-buffer-overflow READ right of the array). flatcc_builder.h:875 documents alignments 1..256, '
+                          '"This is not checked"; alignments up to 512 stay exact. %d of %d scripts: %s' % (len(hits), len(recs), '; '.join(sorted(by))),
+                          dict(base, stderr=err[:1500], all_sites=sorted(by)))
+        return len(recs), len(hits)
+
+    @staticmethod
+    def _model_ops(ops):
+        """harness create-level ops -> model ops (S:c:h -> S:h, V:c:... -> V:..., R:c:... -> R:..., Ts/Ti:a/To/Te -> T:adds)"""
+        out, adds = [], None
+        for t in ops.split():
+            f = t.split(':')
+            if f[0] == 'S': out.append('S:' + f[2])
+            elif f[0] == 'V': out.append('V:' + ':'.join(f[2:]))
+            elif f[0] == 'R': out.append('R:' + ':'.join(f[2:]))
+            elif f[0] == 'Ts': adds = []
+            elif f[0] == 'Ti': adds.append('i/%s/%s/%s/%s' % (f[2], f[3], f[4], f[5]))
+            elif f[0] == 'To': adds.append('o/%s/%s' % (f[1], f[2]))
+            elif f[0] == 'Te': out.append('T:' + ';'.join(adds)); adds = None
+            elif f[0] in ('B', 'C') and f[1] == '-': out.append(':'.join([f[0], '0'] + f[2:]))
+            elif f[0] == 'X' and f[3] == '-': out.append(':'.join(f[:3] + ['0']))
+            else: out.append(t)
+        return ' '.join(out)
+
+    # ------------------------------------------------------------------ tables at the 64 KB limit of the vtable's table size field
+    def table_size_limit(self, rng, count):
+        """Tables whose inline data ends within a few bytes of, exactly at, one field beyond and far beyond the largest size a vtable
+        can describe (table size = 4 + data <= 65535, every field position below it). Fits: the builder must succeed and the independent
+        decoder must return every field; does not fit: table_add / table_add_offset must FAIL (the model refuses), never finish a table
+        whose vtable holds truncated values."""
+        ctx = self.ctx
+        LIM = 65531                                    # largest data size: 4 + 65531 = 65535
+        recs = []
+        for i in range(count):
+            kind = ['inline', 'offset'][i % 2]
+            sz, al = (4, 4) if kind == 'offset' else rng.choice([(1, 1), (2, 2), (4, 4), (8, 8), (100, 1), (100, 4), (24, 8), (3000, 2)])
+            delta = [0, 1, -1, 2, -2, 3, -3, 4, 5, -4, 8, -8, 64, -64, 4469, 65536 + 17][(i // 2) % 16]
+            pos = LIM + delta - sz; pos -= pos % al       # where the crossing field goes: it ends at (or, aligned down, just below) LIM + delta
+            before = pos - rng.randrange(al)              # padding in front of it
+            fields, off, fid = [], 0, 0                 # (id, 'i', size, align, bytes) | (id, 'o')
+            chunk = rng.choice([100, 1000, 4000, 8000])
+            while off + chunk <= before - 16:
+                fields.append((fid, 'i', chunk, 1, bytes([fid % 251 + 1]) * chunk)); off += chunk; fid += 1
+            if before - off > 0:
+                r = before - off
+                fields.append((fid, 'i', r, 1, bytes([0xEE]) * r)); off += r; fid += 1
+            crossing = fid
+            fields.append((fid, 'i', sz, al, bytes(rng.randrange(1, 256) for _ in range(sz))) if kind == 'inline' else (fid, 'o')); fid += 1
+            for k in range(rng.choice([0, 0, 1, 3])):   # more fields after the one that crosses
+                fields.append((fid, 'i', 4, 4, rng.randrange(1 << 32).to_bytes(4, 'little')) if rng.random() < 0.6 else (fid, 'o')); fid += 1
+            # layout as the format defines it (independent of model and C): running offset, align up, add
+            off = 0
+            for f in fields:
+                a, z = (f[3], f[2]) if f[1] == 'i' else (4, 4)
+                off = (off + a - 1) // a * a + z
+            total = off
+            sv = bytes(rng.randrange(1, 256) for _ in range(rng.choice([1, 5, 40])))
+            ws = rng.choice([0, 2]); cl = rng.choice([0, 1])
+            ops = ['X:%d:0:-' % cl, 'B:-:0:%d' % ws, 'S:c:' + sv.hex(), 'Ts:%d' % (fid + rng.choice([0, 0, 2]))]
+            for f in fields:
+                ops.append('Ti:a:%d:%d:%d:%s' % (f[0], f[2], f[3], f[4].hex()) if f[1] == 'i' else 'To:%d:0' % f[0])
+            ops += ['Te', 'E:1']
+            ops = ' '.join(ops)
+            desc = ';'.join('%d,0,s:%d:%d' % (f[0], f[2], f[3]) if f[1] == 'i' else '%d,0,str' % f[0] for f in fields) + '#-'
+            exp = 't{' + ';'.join('%d=b%s' % (f[0], f[4].hex()) if f[1] == 'i' else '%d=s%s' % (f[0], sv.hex()) for f in fields) + '}'
+            recs.append({'h': 'build ' + ops, 'm': 'run ' + self._model_ops(ops), 'total': total, 'fits': total <= LIM, 'desc': desc, 'exp': exp,
+                         'ws': 1 if ws else 0, 'crossing': crossing, 'kind': kind, 'nf': len(fields)})
+        hres = lib.run_harness_resilient(self.H, [r['h'] for r in recs])
+        mres = ctx.run_model('builder', [r['m'] for r in recs])
+        dl, dm = [], []
+        for r, hr, mr in zip(recs, hres, mres):
+            ctx.count(r['h'], klass='build:table-size-limit-' + ('fits' if r['fits'] else 'too-large'))
+            hi = parse_reply(hr)
+            r['hr'], r['mr'], r['hi'] = hr, mr, hi
+            if hi is not None:
+                r['dec'] = 'dec %s t:0 %d 3 %d %s' % (r['desc'], r['ws'], hi['align'], hi['raw'].hex())
+                dl.append(r['dec']); dm.append(r)
+        for r, d in zip(dm, ctx.run_model('builder', dl) if dl else []): r['d'] = d
+        nbad = 0
+        for r in recs:
+            hr, mr, hi = r['hr'], r['mr'], r['hi']
+            base = {'harness_line': r['h'], 'model_line': r['m'], 'inline_data_bytes': r['total'], 'largest_representable': LIM, 'impl': hr[:400], 'model': mr[:400]}
+            what = '%d fields, %d bytes of inline data (table size %d, limit 65535), the field that crosses is %s field id %d' % (r['nf'], r['total'], r['total'] + 4, r['kind'], r['crossing'])
+            if hr.startswith('CRASH'):
+                ctx.violation('crash:' + self.crash_key(hr), 'the builder crashes (sanitizer) on a table at the size limit (%s): %s' % (what, hr[:300]), base); continue
+            if (mr.startswith('OK')) != r['fits']:
+                ctx.violation('checker:table-size-limit', 'check machinery: the model %s a table with %s' % ('refuses' if r['fits'] else 'builds', what), base, kind='no-failing-input-found'); continue
+            if r['fits']:
+                if hi is None:
+                    ctx.violation('build-failed:table-within-size-limit', 'the builder refuses a table that fits (%s): %s' % (what, hr[:200]), base)
+                elif r.get('d') != r['exp']:
+                    ctx.violation('malformed-buffer:table-at-size-limit', 'a table that fits (%s) does not decode to the fields added (independent decoder: %s)' % (what, r.get('d', '')[:60]),
+                                  dict(base, dec_line=r['dec'], expected=r['exp'][:200]))
+                elif hr != mr:
+                    ctx.violation('corr:build:table-at-size-limit', 'model and implementation disagree on a table that fits (%s)' % what, base)
+                continue
+            if hi is not None:
+                nbad += 1
+                raw = hi['raw']; hp = 4 * r['ws']
+                try:
+                    t = hp + int.from_bytes(raw[hp:hp + 4], 'little'); vt = t - int.from_bytes(raw[t:t + 4], 'little', signed=True)
+                    stored = 'its vtable stores table size %d' % int.from_bytes(raw[vt + 2:vt + 4], 'little')
+                    ents = [int.from_bytes(raw[vt + 4 + 2 * k:vt + 6 + 2 * k], 'little') for k in range(r['nf'])]
+                    wrapped = [k for k in range(1, len(ents)) if ents[k] and ents[k] < ents[k - 1]]
+                    if wrapped: stored += ', field %d at position %d after field %d at %d' % (wrapped[0], ents[wrapped[0]], wrapped[0] - 1, ents[wrapped[0] - 1])
+                except Exception:
+                    stored = 'header unreadable'
+                ctx.violation('table-too-large-not-refused',
+                              'flatcc_builder_table_add / table_add_offset never fail when the inline data of a table outgrows what the 16 bit table size and field positions of the vtable can '
+                              'hold; end_table only asserts (debug builds) and with NDEBUG finishes a malformed table: %s; %s; independent decoder: %s' % (what, stored, r.get('d', '')[:40]),
+                              dict(base, dec_line=r.get('dec', '')))
+        return len(recs), nbad
+
     # ------------------------------------------------------------------ classification helpers
     @staticmethod
     def crash_key(rep):
@@ -326,8 +507,10 @@ def replay(E, ctx):
         if res.startswith('CRASH') or res.startswith('FAIL'): still.append('implementation: ' + res[:200])
         if ml:
             m = ctx.run_model('builder', [ml])[0]
+            if hl.startswith('buildd ') and m.startswith('OK '): m = re.sub(r' emits=\S+', ' emits=-', m)
             ctx.log('replay model         :', m[:700])
             if not gen and parse_reply(res) and parse_reply(m) and res != m: still.append('implementation and (corrected) model differ')
+            if not gen and parse_reply(res) and m.startswith('FAIL'): still.append('implementation succeeds where the (corrected) model refuses')
     for k in ('verify_line', 'dump_line'):
         if rep.get(k) and name in E.BC and len(rep[k].split()) > 3:
             r = E.run_bc(name, [rep[k]])[0]
